@@ -110,6 +110,10 @@ def generate():
          == 'm_formattedMessage = formattedMessage;', 'LogMessage::setFormattedMessage: plain assignment')
     need(inline_body(lh, r'inline void setAttributes\(const QVariantHash &attrs\)', 'LogMessage::setAttributes')
          == 'm_attributes = attrs;', 'LogMessage::setAttributes: plain assignment')
+    need(inline_body(lh, r'inline void setAttribute\(const QString &name, const QVariant &value\)', 'LogMessage::setAttribute')
+         == 'm_attributes.insert(name, value);', 'LogMessage::setAttribute: unconditional m_attributes.insert(name, value)')
+    need(inline_body(lh, r'inline void removeAttribute\(const QString &name\)', 'LogMessage::removeAttribute')
+         == 'm_attributes.remove(name);', 'LogMessage::removeAttribute: m_attributes.remove(name)')
     need(inline_body(lh, r'inline QVariantHash attributes\(\) const', 'LogMessage::attributes')
          == 'return m_attributes;', 'LogMessage::attributes')
     need(re.search(r'm_attributes\.insert\(attrs\);', inline_body(lh, r'inline void updateAttributes\(const QVariantHash &attrs\)', 'LogMessage::updateAttributes')),
@@ -124,7 +128,54 @@ def generate():
     need(eb == 'if (m_parent) return *m_parent; else return *this;', 'SimplePipeline::end: returns the parent (found: %s)' % eb)
     hb = norm(fn_body(sp, 'SimplePipeline::handler'))
     need(hb == 'append(FunctionHandlerPtr::create(std::move(func))); return *this;', 'SimplePipeline::handler: plain append')
-    out = HDR % 'src/qtlogger/{pipeline.cpp,attrhandler.h,filter.h,formatter.h,sink.h,functionhandler.h,logmessage.h,simplepipeline.cpp}'
+    # ---- the edits of a configured pipeline (model: apply_op): remove / clear / operator<<, the typed SortedPipeline calls
+    need(norm(fn_body(ps, 'Pipeline::remove')) == 'if (handler.isNull()) return; m_handlers.removeAll(handler);',
+         'Pipeline::remove: null ignored, removeAll')
+    need(norm(fn_body(ps, 'Pipeline::clear')) == 'm_handlers.clear();', 'Pipeline::clear: m_handlers.clear()')
+    need(norm(fn_body(ps, 'Pipeline::operator<<')) == 'append(handler); return *this;', 'Pipeline::operator<<: append')
+    so = strip_comments(rd('sortedpipeline.cpp'))
+    sorted_bodies = {
+        'SortedPipeline::insertBetweenNearLeft':
+            'auto firstRight = std::find_if(handlers().begin(), handlers().end(), [&rightType](const auto &x) { return rightType.contains(x->type()); }); '
+            'auto lastLeft = std::find_if(std::make_reverse_iterator(firstRight), handlers().rend(), [&leftType](const HandlerPtr &x) { return leftType.contains(x->type()); }); '
+            'handlers().insert(lastLeft.base(), handler);',
+        'SortedPipeline::insertBetweenNearRight':
+            'auto lastLeft = std::find_if(handlers().rbegin(), handlers().rend(), [&leftType](const HandlerPtr &x) { return leftType.contains(x->type()); }); '
+            'auto firstRight = std::find_if(lastLeft.base(), handlers().end(), [&rightType](const auto &x) { return rightType.contains(x->type()); }); '
+            'handlers().insert(firstRight, handler);',
+        'SortedPipeline::appendAttrHandler':
+            'if (attrHandler.isNull()) return; insertBetweenNearLeft({ HandlerType::AttrHandler }, '
+            '{ HandlerType::Filter, HandlerType::Formatter, HandlerType::Sink, HandlerType::Pipeline }, attrHandler);',
+        'SortedPipeline::appendFilter':
+            'if (filter.isNull()) return; insertBetweenNearLeft({ HandlerType::AttrHandler, HandlerType::Filter }, '
+            '{ HandlerType::Formatter, HandlerType::Sink, HandlerType::Pipeline }, filter);',
+        'SortedPipeline::setFormatter':
+            'if (formatter.isNull()) return; clearFormatters(); insertBetweenNearRight({ HandlerType::AttrHandler, HandlerType::Filter }, '
+            '{ HandlerType::Sink, HandlerType::Pipeline }, formatter);',
+        'SortedPipeline::appendSink':
+            'if (sink.isNull()) return; insertBetweenNearRight({ HandlerType::AttrHandler, HandlerType::Filter, HandlerType::Formatter, HandlerType::Sink }, '
+            '{ HandlerType::Pipeline }, sink);',
+        'SortedPipeline::appendPipeline': 'append(pipeline);',
+        'SortedPipeline::clearAttrHandlers': 'clear(HandlerType::AttrHandler);',
+        'SortedPipeline::clearFilters': 'clear(HandlerType::Filter);',
+        'SortedPipeline::clearFormatters': 'clear(HandlerType::Formatter);',
+        'SortedPipeline::clearSinks': 'clear(HandlerType::Sink);',
+        'SortedPipeline::clearPipelines': 'clear(HandlerType::Pipeline);',
+    }
+    for fn, want in sorted_bodies.items():
+        got = norm(fn_body(so, fn))
+        need(got == want, '%s: the shape the edit model (apply_op) assumes (found: %s)' % (fn, got))
+    need(re.search(r'void SortedPipeline::clear\(HandlerType type\)\s*\{\s*QMutableListIterator<HandlerPtr> iter\(handlers\(\)\);\s*'
+                   r'while \(iter\.hasNext\(\)\) \{\s*if \(iter\.next\(\)->type\(\) == type\) \{\s*iter\.remove\(\);\s*\}\s*\}\s*\}', so),
+         'SortedPipeline::clear(type): removes every handler of that type')
+    need(re.search(r'void SortedPipeline::clear\(\)\s*\{\s*Pipeline::clear\(\);\s*\}', so), 'SortedPipeline::clear(): Pipeline::clear()')
+    for fn, want in (('SimplePipeline::attrHandler', 'append(FunctionAttrHandlerPtr::create(func)); return *this;'),):
+        need(norm(fn_body(sp, fn)) == want, fn + ': plain append')
+    need(re.search(r'SimplePipeline &SimplePipeline::filter\(std::function<bool\(const LogMessage &\)> func\)\s*\{\s*append\(FunctionFilterPtr::create\(func\)\);\s*return \*this;\s*\}', sp),
+         'SimplePipeline::filter(function): plain append')
+    need(re.search(r'SimplePipeline &SimplePipeline::format\(std::function<QString\(const LogMessage &\)> func\)\s*\{\s*append\(FunctionFormatterPtr::create\(func\)\);\s*return \*this;\s*\}', sp),
+         'SimplePipeline::format(function): plain append')
+    out = HDR % 'src/qtlogger/{pipeline.cpp,attrhandler.h,filter.h,formatter.h,sink.h,functionhandler.h,logmessage.h,simplepipeline.cpp,sortedpipeline.cpp}'
     out += 'Require Import QtlVerif.PipelineDefs.\n'
     order = ['null_skips', 'reject_breaks', 'pipe_returns_true', 'fmsg_init_null', 'save_fmt_if_formatted',
              'restores_fmt', 'restores_attrs', 'attr_continues', 'filter_returns_verdict', 'fmt_overwrites',
